@@ -332,10 +332,33 @@ def run(prog: Program, chk: Check):
         goal = guards.parse(tmpl.format(v=v))
         paths = []
         vcm = guards.copy_map(fi.node, pure_calls=("int", "float", "len"))  # `int_value = int(value)` is looked through
+        # a class whose __init__ fixes self._ctype to one ctypes class may name that class directly in its isinstance test
+        own_ct = None
+        init_ = ci.methods.get("__init__")
+        if init_ is not None:
+            cts = [norm(n_.value) for n_ in walk_local(init_.node) if isinstance(n_, (ast.Assign, ast.AnnAssign)) and n_.value is not None
+                   and norm(n_.targets[0] if isinstance(n_, ast.Assign) else n_.target) == "self._ctype"]
+            if len(cts) == 1 and cts[0].startswith("ctypes."):
+                own_ct = cts[0]
+
+        def by_ctype(x_):
+            if own_ct is None:
+                return x_
+
+            class T(ast.NodeTransformer):
+                def visit_Call(self, c_):
+                    self.generic_visit(c_)
+                    if isinstance(c_.func, ast.Name) and c_.func.id == "isinstance" and len(c_.args) == 2 and norm(c_.args[1]) == own_ct:
+                        return ast.copy_location(ast.Call(func=c_.func, args=[c_.args[0], ast.parse("self._ctype", mode="eval").body], keywords=[]), c_)
+                    return c_
+
+            import copy as _copy
+            return T().visit(_copy.deepcopy(x_))
+
         for e in g.pred[g.exit.id]:
             if e.kind in ("exc", "except"):
                 continue
-            paths += [[(guards.subst(x_, vcm), pol_) for x_, pol_ in p_] for p_ in gs.after_edge(e)]
+            paths += [[(by_ctype(guards.subst(x_, vcm)), pol_) for x_, pol_ in p_] for p_ in gs.after_edge(e)]
         # chained comparisons `a <= x <= b` are split by the guard logic; int(x) vs x are different operands on purpose
         with guards.int_theory():
             bad = guards.any_path_implies(paths, goal)
